@@ -442,6 +442,9 @@ def axiom_table():
          'blank_lines_upper_bound + 1: the bound is a small configuration constant (the CLI never sets it; library default 2)'),
         (r'^pretty::import::\{impl\}::convert_import\|index\|index\|',
          'nodes[divider_index..] / nodes[..divider_index(-1)] with divider_index = position(..).unwrap_or(nodes.len()) <= len'),
+        (r'^ext::\{impl\}::count_linebreaks\|overflow:Sub\|',
+         '(number of line-break characters) - (number of CR LF pairs): every pair contributes two characters to the first count, so the difference is >= 0 '
+         '(the exact shape of both operands is checked)'),
         (r'^pretty::import::\{impl\}::convert_import\|bounds\|',
          'nodes[divider_index - 1] with 0 < divider_index <= nodes.len()'),
     ]
@@ -501,6 +504,9 @@ def _table_guard(w, v, ob, key):
                 return True
         return False
     t = ob['term']
+    if b.short.endswith('::count_linebreaks') and ob['op'].startswith('overflow:Sub'):
+        from rules import e2
+        return all(ok for ok, cons, key, why, loc in e2.linebreak_predicate_obligations(w) if cons['fn'].endswith('count_linebreaks'))
     if 'try_convert_dot_chain_plain' in b.short and ob['op'] == 'index':
         idx = t['args'][1]
         if not (idx['o'] == 'const' and idx.get('int') == 0):
